@@ -50,6 +50,9 @@ mod rtx;
 mod updater;
 mod utxo_entry;
 
+#[cfg(ordinals_ord_verif)]
+pub mod verif;
+
 #[cfg(test)]
 pub(crate) mod testing;
 
